@@ -12,6 +12,8 @@
 //! Signatures = (kind, clause, direction).
 #[path = "c10/common.rs"]
 mod common;
+#[path = "c10/delims.rs"]
+mod delims;
 use common::*;
 use nvh::gen::*;
 use nvh::gm::*;
@@ -31,6 +33,9 @@ struct Case {
     model: Option<TsDoc>,
     /// canonical SDL of the abstract model (for replay files)
     model_sdl: Option<String>,
+    /// only the text-level comparisons (well-formedness, K on trees and comments, comments-only oracle, structural
+    /// check of `Resolvers`) — the membership tables are skipped (delimiter-text stream: many cheap cases)
+    light: bool,
 }
 
 fn with_builtin_scalars(doc: &TsDoc) -> TsDoc {
@@ -45,10 +50,10 @@ fn with_builtin_scalars(doc: &TsDoc) -> TsDoc {
 
 impl Case {
     fn text(sdl: String, cfg: CfgCase, origin: &str) -> Case {
-        Case { sdl, cfg, origin: origin.to_string(), model: None, model_sdl: None }
+        Case { sdl, cfg, origin: origin.to_string(), model: None, model_sdl: None, light: false }
     }
     fn to_json(&self) -> Value {
-        json!({"sdl": self.sdl, "cfg": self.cfg.to_json(), "origin": self.origin, "model_sdl": self.model_sdl})
+        json!({"sdl": self.sdl, "cfg": self.cfg.to_json(), "origin": self.origin, "model_sdl": self.model_sdl, "light": self.light})
     }
     fn from_json(v: &Value) -> Case {
         let model_sdl = v["model_sdl"].as_str().map(|s| s.to_string());
@@ -60,6 +65,7 @@ impl Case {
             origin: v["origin"].as_str().unwrap_or("replay").to_string(),
             model,
             model_sdl,
+            light: v["light"].as_bool().unwrap_or(false),
         }
     }
 }
@@ -72,6 +78,21 @@ fn corpus() -> Vec<Case> {
     out.push(Case::text(format!("scalar S\ntype Foo {{ id: ID! }}\ntype Bar {{ id: ID! }}\nunion U = Foo | Bar\ninterface I {{ id: ID! }}\ntype Baz implements I {{ id: ID! }}\nenum E {{ A B }}\ninput In {{ x: Int y: [E!]! }}\n{base}"), CfgCase { scalars: vec![("S".into(), ScalarCfg::SendReceive { send: "Baz | string".into(), receive: "Baz".into() })], optional: Some(false), runtime: false }, "corpus:clash-interface-implementer"));
     // §9-ab: `*/` in descriptions (type level, field level, enum, input field)
     out.push(Case::text("\"\"\"ends */ the comment\"\"\"\ntype Query { \"field */ doc\" a: Int @deprecated(reason: \"*/ gone\") }\n\"*/\"\nenum E { A }\ninput In { \"x */\" x: Int }\n".into(), CfgCase { scalars: vec![], optional: None, runtime: false }, "corpus:jsdoc-close"));
+    // the same sites with a delimiter-like token SEVERAL times on one line / on several lines / glued / escaped already
+    out.push(Case::text(
+        concat!(
+            "\"a */ b */ c\"\nschema { query: Query }\n",
+            "\"\"\"\nsrc/**/*.ts and test/**/*.ts\n*/*/\n/**/ /* */ */\n\"\"\"\ntype Query {\n",
+            "  \"*/*/\" a(\"x */ y */\" x: Int, \"*\\\\/ */ \\\\*/ */\" y: In): Int @deprecated(reason: \"*/ gone */ twice */\")\n",
+            "  \"\"\"\n  */ at line start */\n  and end */\n  \"\"\"\n  b: E @deprecated(reason: \"\"\"*/*/*/\"\"\")\n}\n",
+            "\"/* */ */\"\nenum E { \"*/ */\" A @deprecated(reason: \"*/ */\") B }\n",
+            "\"*/ */ */ */\"\ninput In { \"x */*/\" x: Int @deprecated(reason: \"**/ **/\") \"\"\"*/\n*/ */\"\"\" y: [In!] }\n",
+            "\"// */ // */\"\ninterface I { \"*/ */\" id: ID }\n\"*/*/\"\nunion U = Query\n\"*/ */\"\nscalar D\n"
+        )
+        .into(),
+        CfgCase { scalars: vec![("D".into(), ScalarCfg::Single("string".into()))], optional: None, runtime: false },
+        "corpus:jsdoc-close-repeated",
+    ));
     // the fresh name `__tmp_Foo` is itself an identifier of a scalar text (known open finding)
     out.push(Case::text("scalar S\ntype Foo { id: ID! }\ntype Query { s: S f: Foo }\n".into(), CfgCase { scalars: vec![("S".into(), ScalarCfg::Single("Foo | __tmp_Foo".into()))], optional: None, runtime: false }, "corpus:fresh-name-captured"));
     // directive-supplied scalar types, and a scalar without any type
@@ -138,7 +159,29 @@ fn generated(rng: &mut Rng, i: usize) -> Case {
     } else {
         schema.sdl()
     };
-    Case { sdl, cfg: CfgCase::from_project(&pc), origin, model: Some(with_builtin_scalars(&schema.doc)), model_sdl: Some(schema.sdl()) }
+    Case { sdl, cfg: CfgCase::from_project(&pc), origin, model: Some(with_builtin_scalars(&schema.doc)), model_sdl: Some(schema.sdl()), light: false }
+}
+
+/// Stream "delimiter texts": a generated schema whose descriptions (schema, every kind of type, fields, arguments, enum
+/// values, input fields) and `@deprecated` reasons REPEAT comment-delimiter-like tokens on a line and across lines
+/// (`nvh::gen::delimiter_text`), written as quoted strings or as (multi-line) block strings, optionally with `extend …`
+/// items. One case in eight runs the full comparison, the others the text-level ones (`light`).
+fn delimiter_case(rng: &mut Rng, i: usize) -> Case {
+    let cfg = GenCfg { hostile_text: i % 4 == 3, delimiter_text: true, ..GenCfg::default() };
+    let mut schema = gen_schema(rng, &cfg);
+    let pc = gen_project_cfg(rng, &schema, false);
+    let density = [2, 4, 8][i % 3];
+    let _ = delims::decorate(rng, &mut schema, density);
+    let block = i % 2 == 1;
+    let mut origin = format!("delimiter-text:{i}{}", if block { ":block-strings" } else { "" });
+    let doc = if i % 5 == 2 {
+        origin.push_str(":extensions");
+        split_into_extensions(rng, &schema)
+    } else {
+        schema.doc.clone()
+    };
+    let sdl = delims::render(&doc, block, rng.next_u64());
+    Case { sdl, cfg: CfgCase::from_project(&pc), origin, model: Some(with_builtin_scalars(&schema.doc)), model_sdl: Some(schema.sdl()), light: i % 8 != 0 }
 }
 
 fn doc_tokens(text: &str) -> Option<Vec<String>> {
@@ -421,7 +464,11 @@ fn run_case(rep: &mut Report, drv: &mut Driver, case: &Case) {
     if case.origin.contains(":extensions") {
         rep.count("feature:schema-written-with-extensions");
     }
-    let ans = drv.batch(&[Sexp::call("decls.schema", vec![cfg_sexp.clone(), doc_sexp.clone()]), Sexp::call("decls.resolvers", vec![cfg_sexp.clone(), doc_sexp.clone()])]);
+    let ans = drv.batch(&[
+        Sexp::call("decls.schema", vec![cfg_sexp.clone(), doc_sexp.clone()]),
+        Sexp::call("decls.resolvers", vec![cfg_sexp.clone(), doc_sexp.clone()]),
+        Sexp::call("decls.resolverDocs", vec![cfg_sexp.clone(), doc_sexp.clone()]),
+    ]);
     let view0_defs: Vec<&TypeDef> = ref_doc.items.iter().filter_map(|i| if let TsItem::TypeDef(t) = i { Some(t) } else { None }).collect();
     // ---- input distribution
     let eff = effective_scalars(&case.cfg, &ref_doc);
@@ -462,6 +509,39 @@ fn run_case(rep: &mut Report, drv: &mut Driver, case: &Case) {
     }
     if view0_defs.iter().any(|t| t.desc.is_some()) {
         rep.count("feature:descriptions");
+    }
+    // comment sources of the document the printers see: per site, how often one LINE repeats the comment close, and the
+    // other delimiter-like shapes
+    let sources = delims::comment_sources(&tsdoc);
+    {
+        let mut seen: BTreeSet<String> = BTreeSet::new();
+        for (site, text) in &sources {
+            let n = delims::max_close_per_line(text);
+            if n >= 2 {
+                seen.insert(format!("feature:comment-close-repeated-on-a-line:{site}"));
+                seen.insert(format!("feature:comment-close-per-line:{}", if n >= 4 { "4+".to_string() } else { n.to_string() }));
+            }
+            if text.split('\n').filter(|l| l.contains("*/")).count() >= 2 {
+                seen.insert(format!("feature:comment-close-on-several-lines:{site}"));
+            }
+            for (tok, label) in [("*/*/", "close-close-glued"), ("/**/", "empty-comment"), ("/*", "comment-open"), ("*\\/", "already-escaped-close"), ("\\*/", "backslash-before-close")] {
+                if text.contains(tok) {
+                    seen.insert(format!("feature:delimiter:{label}"));
+                }
+            }
+            if text.split('\n').any(|l| l.starts_with("*/")) {
+                seen.insert("feature:delimiter:close-at-line-start".into());
+            }
+            if text.split('\n').any(|l| l.ends_with("*/")) {
+                seen.insert("feature:delimiter:close-at-line-end".into());
+            }
+        }
+        for f in seen {
+            rep.count(&f);
+        }
+        if case.origin.contains(":block-strings") && case.sdl.contains("\"\"\"") {
+            rep.count("feature:descriptions-as-block-strings");
+        }
     }
     if view0_defs.iter().any(|t| t.fields.iter().any(|f| f.dirs.iter().any(|d| d.name == "deprecated")) || t.inputs.iter().any(|f| f.dirs.iter().any(|d| d.name == "deprecated"))) {
         rep.count("feature:deprecated-fields");
@@ -536,9 +616,66 @@ fn run_case(rep: &mut Report, drv: &mut Driver, case: &Case) {
                     let d = if ans[1].head() == Some("ok") { first_diff(&ans[1].args()[0], &tree, &mut vec![]).unwrap_or_default() } else { ans[1].to_line() };
                     rep.fail("K", "resolvers-file:tree", &format!("resolvers declaration tree differs (model vs code) at {d}"), case.to_json());
                 }
+                // every JSDoc comment of the resolvers file (argument descriptions, inside `Args`) = the model's
+                rep.k_cases += 1;
+                if ans[2].head() != Some("ok") {
+                    rep.fail("K", "driver", &format!("driver answer (resolverDocs): {}", ans[2].to_line().chars().take(200).collect::<String>()), case.to_json());
+                } else {
+                    let model_docs: Vec<String> = ans[2].args()[0].args().iter().filter_map(|s| s.as_str().map(|x| x.to_string())).collect();
+                    if doc_tokens(text) != Some(model_docs.clone()) {
+                        rep.fail("K", "resolvers-file:jsdoc-comments", &format!("JSDoc comments of the resolvers file differ: model {model_docs:?} code {:?}", doc_tokens(text)), case.to_json());
+                    }
+                }
                 real_resolvers = Some(tree);
             }
         },
+    }
+
+    // ---- O (comments only): "whatever the descriptions contain" — descriptions and deprecation reasons contribute
+    // COMMENTS only: without its comments each emitted file is, token for token, the file emitted for the same schema
+    // with every description and every @deprecated removed
+    if delims::has_comments(&tsdoc) {
+        let plain_sdl = nvh::render::tsdoc_text(&delims::plain_doc(&tsdoc));
+        match with_schema(&[plain_sdl.clone()], |resolved, _| (print_schema_types(resolved, &config), print_resolver_types(resolved, &config))) {
+            Err(e) => rep.fail("K", "comments-only:plain-schema-not-accepted", &format!("the schema without descriptions is not accepted: {e:?}\n{plain_sdl}"), case.to_json()),
+            Ok((plain_schema, plain_resolvers)) => {
+                for (file, with, plain) in [("schema-file", &schema_text, &plain_schema), ("resolvers-file", &resolvers_text, &plain_resolvers)] {
+                    rep.o_cases += 1;
+                    match (with, plain) {
+                        (Ok(w), Ok(p)) => {
+                            let Some(pt) = delims::code_tokens(p) else {
+                                rep.fail("O", &format!("wellformed:{file}:without-descriptions"), "the file emitted for the description-free schema cannot be tokenised", case.to_json());
+                                continue;
+                            };
+                            // a file that cannot be tokenised is reported by the well-formedness check
+                            if let Some(wt) = delims::code_tokens(w) {
+                                if wt != pt {
+                                    if let Ok(d) = std::env::var("C10_DEBUG_DIR") { let _ = std::fs::write(format!("{d}/with-{file}.ts"), w); let _ = std::fs::write(format!("{d}/plain-{file}.ts"), p); let _ = std::fs::write(format!("{d}/plain.graphql"), &plain_sdl); }
+                                    let class = if hostile { "jsdoc-close" } else { "description-changes-code" };
+                                    rep.fail(
+                                        "O",
+                                        &format!("comments-only:{file}:{class}"),
+                                        &format!("descriptions must contribute comments only, but without its comments the emitted {file} differs from the one of the description-free schema ({})", delims::first_token_diff(&wt, &pt)),
+                                        case.to_json(),
+                                    );
+                                }
+                            }
+                        }
+                        (Err(a), Err(b)) if a == b => {}
+                        (a, b) => rep.fail("O", &format!("comments-only:{file}:outcome"), &format!("with descriptions: {:?}; without: {:?}", a.as_ref().map(|_| "printed"), b.as_ref().map(|_| "printed")), case.to_json()),
+                    }
+                }
+            }
+        }
+    }
+    if case.light {
+        // text-level comparisons only; the structural check of `Resolvers` against the abstract model still runs
+        if let Some(rt) = &real_resolvers {
+            let view = SchemaView { doc: &ref_doc, scalar_sample: BTreeMap::new(), optional: case.cfg.optional.unwrap_or(true) };
+            check_resolvers(rep, &view, rt, case);
+        }
+        rep.count("mode:text-level-only");
+        return;
     }
 
     // ---- O: membership on the abstract value domain
@@ -728,6 +865,14 @@ fn main() {
     for i in 0..n {
         let c = generated(&mut rng, i);
         rep.count("origin:generated");
+        run_case(&mut rep, &mut drv, &c);
+    }
+    // stream "delimiter texts" (own random stream: the generated stream above is unchanged)
+    let mut rng = Rng::new(args.seed ^ 0xC10_DE11);
+    let n = args.budget(80, 1200) * boost;
+    for i in 0..n {
+        let c = delimiter_case(&mut rng, i);
+        rep.count("origin:delimiter-text");
         run_case(&mut rep, &mut drv, &c);
     }
     rep.write(&args);
